@@ -37,23 +37,20 @@ class Graph:
         self.nodes = {}
         self.out = {}
         self.edges = []
-        init = None
+        self.inits = []
         for m in _NODE.finditer(text):
             nid = m.group(1)
             if nid not in self.nodes:
                 self.nodes[nid] = parse_state(m.group(2))
-                if init is None and "style = filled" in text[m.start():text.find("\n", m.start())]:
-                    init = nid
+                eol = text.find("\n", m.end())
+                if "style = filled" in text[m.end():eol if eol > 0 else len(text)]:
+                    self.inits.append(nid)
         for m in _EDGE.finditer(text):
             u, v, lab = m.group(1), m.group(2), _unescape(m.group(3))
             if u == v:
                 continue
             self.edges.append((u, v, lab))
             self.out.setdefault(u, []).append((v, lab))
-        self.inits = [nid for nid in self.nodes
-                      if re.search(r'^' + re.escape(nid) + r' \[label="[^\n]*style = filled', text, re.M)]
-        if not self.inits and init:
-            self.inits = [init]
         # BFS parents
         self.parent = {}
         dq = deque(self.inits)
